@@ -920,7 +920,8 @@ def run_real(case, scale=1):
                             break
                         i = (sched.pop(0) if sched else 0) % len(rc.pending)
                         p, f = rc.pending.pop(i)
-                        f.set_result(None)
+                        if not f.done():        # a sibling cancelled by the runtime after another field aborted the request
+                            f.set_result(None)
                     return task.result()
                 result = loop.run_until_complete(main())
             finally:
